@@ -26,6 +26,7 @@ type Meta struct {
 	Assumptions []string // explored-domain bounds, trusted base
 	Obligations []string // counters that must be > 0 in every run (else inconclusive)
 	Race        bool     // workers run the -race build; race reports are violations
+	Level       string   // evidence level (default "exploration")
 	// Workers limits the number of parallel worker processes (0 = number of CPUs).
 	Workers int
 	// ChunkSize overrides the number of cases per worker process (0 = auto).
